@@ -740,7 +740,9 @@ impl LZDiff {
 
     /// Check if byte is a literal
     fn is_literal(&self, c: u8) -> bool {
-        (b'A'..=b'A' + 20).contains(&c) || c == b'!'
+        // Literals are emitted as b'A' + code for every symbol code, including the
+        // unknown-letter code 30 (b'A' + 30 = b'_'), so the decoder must accept that range.
+        (b'A'..=b'A' + 30).contains(&c) || c == b'!'
     }
 
     /// Decode a literal
